@@ -367,6 +367,14 @@ def head_streams(rnd, thorough):
         out.append(response("101", good_headers(k, connection=v)))
     for v in ["ch\u00e4t", "\u212a"]:
         out.append(response("101", good_headers(k, sub=v)))
+    # long heads (more header fields than any hidden bound one might put on the loop): complete, cut before the blank line,
+    # with a malformed line or undecodable bytes in their tail, required fields first / last
+    many = [(f"X-Field-{i}", f"v{i}") for i in range(150)]
+    long_ok = response("101", good_headers(k) + many)
+    out += [long_ok, response("101", many + good_headers(k)), long_ok[:-2], long_ok[:-4],
+            long_ok[:-4] + b"\r\nno colon here\r\n\r\n", long_ok[:-4] + b"\r\nX: \xff\xfe\r\n\r\n",
+            response("101", good_headers(k) + many[:96]), response("101", good_headers(k) + many[:97])[:-2],
+            response("101", good_headers(k) + many[:99])[:-2]]
     # line endings
     for eol in ["\n", "\r", "\r\r\n", "\n\r"]:
         out.append(response("101", good_headers(k), eol=eol))
